@@ -70,9 +70,9 @@ def values_for(ast, tier) -> t.List[t.Any]:
         step = len(near) / cap
         near = [near[int(i * step)] for i in range(cap)]
     out.extend(near)
-    # large members: 40 elements for every type, 300 for the small types (thorough: 1100 too)
+    # large members: 70 elements for every type, 300 for the small types (thorough: 1100 too)
     for m in mem[:2]:
-        out.extend(values.inflate(m, 40))
+        out.extend(values.inflate(m, 70))
     if size(ast) <= 2 and mem:
         for n in ((300,) if tier == 'quick' else (300, 1100)):
             out.extend(list(values.inflate(mem[0], n))[:2])
